@@ -425,6 +425,10 @@ class PDFPageInterpreter:
         """Initialize the text and graphic states for rendering a page."""
         # gstack: stack for graphical states.
         self.gstack: List[Tuple[Matrix, PDFTextState, PDFGraphicState]] = []
+        # the colour spaces are part of the graphics state as well
+        self.csstack: List[
+            Tuple[Optional[PDFColorSpace], Optional[PDFColorSpace]]
+        ] = []
         self.ctm = ctm
         self.device.set_ctm(self.ctm)
         self.textstate = PDFTextState()
@@ -461,11 +465,13 @@ class PDFPageInterpreter:
     def do_q(self) -> None:
         """Save graphics state"""
         self.gstack.append(self.get_current_state())
+        self.csstack.append((self.scs, self.ncs))
 
     def do_Q(self) -> None:
         """Restore graphics state"""
         if self.gstack:
             self.set_current_state(self.gstack.pop())
+            (self.scs, self.ncs) = self.csstack.pop()
 
     def do_cm(
         self,
